@@ -664,6 +664,7 @@ class H2Connection(Protocol, TimeoutMixin):
         @type event: L{h2.events.WindowUpdated}
         """
         streamID = event.stream_id
+        unblocked = False
 
         if streamID:
             if not self._streamIsActive(streamID):
@@ -677,6 +678,7 @@ class H2Connection(Protocol, TimeoutMixin):
             # _sendPrioritisedData loop some time later.
             if self._outboundStreamQueues.get(streamID):
                 self.priority.unblock(streamID)
+                unblocked = True
             self.streams[streamID].windowUpdated()
         else:
             # Update strictly applies to all streams.
@@ -686,6 +688,14 @@ class H2Connection(Protocol, TimeoutMixin):
                 # If we still have data to send for this stream, unblock it.
                 if self._outboundStreamQueues.get(stream.streamID):
                     self.priority.unblock(stream.streamID)
+                    unblocked = True
+
+        # Data that was queued while the window was closed must not wait for
+        # the next write: wake the sending loop if it is parked.
+        if unblocked and self._sendingDeferred is not None:
+            d = self._sendingDeferred
+            self._sendingDeferred = None
+            d.callback(streamID)
 
     def getPeer(self):
         """
